@@ -189,7 +189,7 @@ def c_bhg(r, d=2):
 
 
 def c_api(r, dim=2, theta="1:-1"):
-    m = r.range(8, 12)
+    m = r.range(18, 24)          # below ~15 points per cluster the optimiser (eta = 200) is outside its working regime
     d = r.range(2, 4)
     pts, labels = [], []
     for lab, centre in enumerate([0, 40]):
@@ -197,7 +197,7 @@ def c_api(r, dim=2, theta="1:-1"):
             pts.append(tuple(Fraction(centre) + dy(r.range(-16, 16), -3) for _ in range(d)))
             labels.append(lab)
     n = len(pts)
-    perp = r.choice([Fraction(2), Fraction(5, 2)])
+    perp = r.choice([Fraction(4), Fraction(5)])
     return "api N=%d D=%d X=%s perp=%s theta=%s dim=%d labels=%s" % (n, d, fmts(flat(pts)), fmt(perp), theta, dim,
                                                                        ",".join(map(str, labels)))
 
@@ -263,11 +263,14 @@ def verdict(line, io, mo):
     if io.startswith("abort:"):
         sig = io[len("abort:"):]
         if topic == "bhg" and m.get("cmp", "").startswith("model-ERR:oob"):
-            return ("fail", "bh-gradient-dims:" + sig.split("@")[0],
-                    "computeGradient indexes its buffers with QT_NO_DIMS = 2 although no_dims = %s (%s); the model reaches %s" % (
-                        kv(line).get("D"), sig, m.get("cmp")))
+            # private-level agreement: the model's explicit error state and the sanitizer abort coincide.  Whether this is
+            # reachable is decided by the public-API cases (target_dimension != 2 with theta > 0), which carry the finding.
+            return ("agree", "bh-gradient-dims-oob", "")
         return ("fail", "abort:%s:%s" % (topic, sig), "%s stage aborts (%s)" % (topic, sig))
     if io.startswith("throw"):
+        f = kv(line)
+        if "wrong_parameter_error" in io and f.get("dim") != "2" and f.get("theta") != "0":
+            return ("agree", "api:documented-error-for-non-2d-barnes-hut", "")
         return ("fail", "api:throws", "public API throws: " + io)
     for key, sig, what in ORACLES.get(topic, []):
         v = m.get(key, "")
@@ -317,7 +320,7 @@ def shrink(ctx, binary, line, sig):
             return False
         impl, model = run_lines(ctx, binary, [l2], timeout=60)
         v = verdict(l2, impl[0], model[0])
-        return v is not None and v[1] == sig
+        return v is not None and v[0] != "agree" and v[1] == sig
     keep = vlib.ddmin(list(range(n)), failing, max_tests=80)
     return drop_points(line, keep) or line
 
@@ -346,13 +349,15 @@ def judge(ctx, binary, lines, label, do_shrink=True, timeout=300):
                 ctx.stat("vptree-model-also-misses-neighbour")
         v = verdict(line, io, mo)
         if os.environ.get("C17_DEBUG") and v:
-            ctx.log("verdict", v[1], "\n    ", line[:400], "\n    impl:", io[:300], "\n    model:", mo[:400])
+            ctx.log("verdict", v[1], "\n    ", line[:4000], "\n    impl:", io[:300], "\n    model:", mo[:400])
         if v is None:
             if len(ctx.cov["samples"]) < 6 and topic not in [s.get("topic") for s in ctx.cov["samples"]]:
                 ctx.sample({"topic": topic, "case": line[:600], "impl": io[:400], "model": mo[:400]})
             continue
         kind, sig, what = v
         ctx.stat("verdict:" + sig)
+        if kind == "agree":
+            continue
         if sig in seen or sig in ctx.extra.setdefault("_reported", []):
             continue
         seen.add(sig)
@@ -423,7 +428,8 @@ def correspond(ctx):
     if not api.get("bin"):
         ctx.broken("harness-build", "harness c17_api.cpp", "API harness does not compile against /repo: " + (api.get("log") or "")[-800:])
     else:
-        lines = [c_api(r.fork(), 2, "1:-1"), c_api(r.fork(), 2, "0"), c_api(r.fork(), 1, "0"), c_api(r.fork(), 1, "1:-1")]
+        lines = [l for l in cl if l.startswith("api ")]
+        lines += [c_api(r.fork(), 2, "1:-1"), c_api(r.fork(), 2, "0"), c_api(r.fork(), 1, "0"), c_api(r.fork(), 1, "1:-1")]
         if not quick:
             lines += [c_api(r.fork(), 2, r.choice(["0", "1:-1", TH_01])) for _ in range(12)]
             lines += [c_api(r.fork(), r.choice([1, 3]), "1:-1") for _ in range(4)]
